@@ -9,7 +9,8 @@ Gate 2 (correspondence): the real code end to end (`pvh fheuint`, the crate's ow
         model (`pdriver fheuint`: plaintext-level slot model; word ops through the C13 circuit tables) vs u32
         arithmetic in Python.
         hist: ONE GLWEBlindRetriever reused for several streams (add… flush / retrieve, different lengths, every index of
-        the later stream) vs `Retr.history`; brot: glwe/ggsw/scalar blind rotation by an index field, every width 1..9,
+        the later stream) vs `Retr.history`; cbtexp: circuit bootstrapping in exponent mode (every log_gap_out up to and including
+        log_gap_in, ranks 1-2, 1-4 rows) vs `Cbt.expRows` and the monomial X^(data << log_gap_out); brot: glwe/ggsw/scalar blind rotation by an index field, every width 1..9,
         in place and out of place, vs `blindRotationAssign` and the negacyclic rotation by ±(v << lsh).
 """
 from . import common
@@ -245,6 +246,19 @@ def run(ctx):
             add(f"brot be={BES[hk % 2]} kind={kind} sign={sign} rsh={rsh} mask={mask} lsh={lsh} idxword={w} want={want}",
                 None, ("brotg", want), ("brotg", kind, mask, sign))
             hk += 1
+    # ---- circuit bootstrapping, exponent mode (own small context: N = 256, radices 15/14/13/12/11), every gap incl. log_gap_out = log_gap_in
+    # (table cells of at least 8 coefficients: with 4 the mod-switch drift of the 77-bit key leaves the cell in a few % of the runs)
+    for rank, dnum, ld in ([(1, 1, 4), (1, 2, 4), (1, 3, 3), (1, 4, 2), (2, 2, 3), (2, 3, 2)] if quick else
+                           [(rk, dn, l) for rk in (1, 2) for dn in (1, 2, 3, 4) for l in (1, 2, 3, 4) if (1 << l) * (4 if dn > 2 else dn) <= 32]):
+        lgi = 8 - ld
+        for lgo in range(0, lgi + 1):
+            datas = sorted(set([0, 1, (1 << ld) - 1, r.below(1 << ld)])) if (quick and lgo not in (lgi, 1)) else \
+                sorted(set([0, 1, (1 << ld) - 1] + [r.below(1 << ld) for _ in range(3)]))
+            for data in datas:
+                add(f"cbtexp be={BES[hk % 2]} rank={rank} dnum={dnum} logdomain={ld} lgo={lgo} data={data}",
+                    f"cbtexp logn=8 b=13 resb=15 dnum={dnum} logdomain={ld} lgo={lgo} data={data} e=1024 prec=30",
+                    ("cbtexp", dnum, data << lgo), ("cbtexp", rank, dnum, ld, lgo == lgi, data == 0))
+                hk += 1
     cbt_vals = [0x84838281] if quick else [0x84838281, 0, 0xFFFFFFFF, r.next() & M32]
     for ci, a in enumerate(cbt_vals):
         add(f"cbt be={BES[ci % 2]} a={a}", None, None, ("cbt", BES[ci % 2]))
@@ -303,6 +317,22 @@ def run(ctx):
                 if bad:
                     ctx.oracle_failures += 1
                     witness = witness or {"kind": "hist", "stream_lengths": [len(x) for x in streams], "index": v, "line": lines[i], "implementation": got[:200], "why": bad}
+                continue
+            if kind == "cbtexp":
+                dnum, pos = want[1], want[2]
+                rows_i = " ".join(t for t in got.split()[1:] if t.startswith("r"))
+                rows_m = " ".join(t for t in (mv or "").split()[1:] if t.startswith("r"))
+                if rows_i != rows_m:
+                    ctx.disagreements += 1
+                    if len(broken) < 20:
+                        broken.append(f"cbtexp: {h} implementation={got[:160]} model={str(mv)[:160]}")
+                exp_rows = " ".join(f"r{i}=" + (f"{pos}:1" if 15 * (i + 1) <= 30 else "-") for i in range(dnum))
+                noise = float(kv(got.split()).get("noise", "0")) if got.startswith("ok") else 0.0
+                if rows_i != exp_rows or noise > -17.5:
+                    ctx.oracle_failures += 1
+                    witness = witness or {"kind": "cbtexp", "line": lines[i], "implementation": got[:300], "want_rows": exp_rows,
+                                          "why": "a row of the bootstrapped GGSW is not the monomial X^(data << log_gap_out)" if rows_i != exp_rows
+                                                 else f"GGSW noise statistic {noise} (log2) w.r.t. X^(data << log_gap_out)"}
                 continue
             if kind in ("brot", "brotg"):
                 if kind == "brot":
